@@ -13,7 +13,7 @@ Recs == File.recs
 VARIABLE tid
 R == Recs[tid]
 FX == 1000000
-A0 == [alpha |-> R.alpha, de |-> R.de, cattype |-> R.cattype, M |-> R.M]
+A0 == [alpha |-> R.alpha, ad |-> R.ad, de |-> R.de, cattype |-> R.cattype, M |-> R.M]
 
 \* |v/FX - N/(4 D)| <= tol   <=>   |4 v D - N FX| <= 4 tol D FX      (all products as big numbers)
 NearRatio(v, N0, D0, tolfx) ==
